@@ -128,7 +128,7 @@ func runC08(c *fw.Ctx) {
 	base := hx.NewStdEnv()
 	r := c.Rand("shapes")
 	maxD := c.Pick(4, 6)
-	nShapes := c.PerShard(c.Pick(240, 16000))
+	nShapes := c.PerShard(c.Pick(160, 16000))
 	nLong := c.PerShard(c.Pick(16, 640))
 	for i := 0; i < nShapes; i++ {
 		defs, used, nfn := c08Shape(r, maxD)
